@@ -4,6 +4,7 @@ pub mod c06;
 pub mod c07;
 pub mod c08;
 pub mod c12;
+pub mod c13;
 pub mod c16;
 pub mod c20;
 pub mod minerhist;
@@ -19,6 +20,7 @@ pub fn dispatch(cfg: &Cfg) -> i32 {
         "C07" => c07::run(cfg),
         "C08" => c08::run(cfg),
         "C12" => c12::run(cfg),
+        "C13" => c13::run(cfg),
         "C16" => c16::run(cfg),
         "C20" => c20::run(cfg),
         p => {
